@@ -1579,3 +1579,52 @@ func c01BoolUnder(v ssa.Value, m string, isSubj func(v ssa.Value) bool) (val, kn
 	}
 	return false, false
 }
+
+// ---------- range-over-func loops ----------
+
+// c01RangeFunc is one `for x := range seq` over a function iterator in F:
+// go/ssa calls seq with a synthesized yield closure holding the loop body.
+type c01RangeFunc struct {
+	Call     ssa.CallInstruction // seq(body) in F
+	Body     *ssa.Function       // the synthesized yield closure (loop body)
+	ProdCall *ssa.Call           // the call producing seq, when seq comes from a module function
+	Prod     *ssa.Function       // the iterator closure that function returns (calls yield)
+}
+
+func c01RangeFuncs(F *ssa.Function) []c01RangeFunc {
+	var out []c01RangeFunc
+	for _, call := range Calls(F, func(string) bool { return true }) {
+		cc := call.Common()
+		if cc.IsInvoke() || len(cc.Args) != 1 {
+			continue
+		}
+		mc, ok := cc.Args[0].(*ssa.MakeClosure)
+		if !ok || mc.Fn.(*ssa.Function).Synthetic != "range-over-func yield" {
+			continue
+		}
+		rf := c01RangeFunc{Call: call, Body: mc.Fn.(*ssa.Function)}
+		if pc, ok := cc.Value.(*ssa.Call); ok {
+			if g := StaticCallee(pc); g != nil && inModule(g) && len(g.Blocks) > 0 {
+				for _, r := range Returns(g) {
+					if f, _ := c01FuncOfValue(r.Results[0]); f != nil {
+						rf.ProdCall, rf.Prod = pc, f
+					}
+				}
+			}
+		}
+		out = append(out, rf)
+	}
+	return out
+}
+
+// c01NextIterTargets: in a range-over-func body, `continue` / falling off the
+// end is `return true`; these returns stand for "next iteration".
+func c01NextIterTargets(body *ssa.Function) []ssa.Instruction {
+	var out []ssa.Instruction
+	for _, r := range Returns(body) {
+		if k, ok := r.Results[0].(*ssa.Const); ok && k.Value != nil && boolConst(k) {
+			out = append(out, r)
+		}
+	}
+	return out
+}
